@@ -23,7 +23,6 @@ import (
 	"time"
 
 	"github.com/gocql/gocql"
-	"github.com/golang/snappy"
 	"verif/engine/refcql/frame"
 	"verif/engine/report"
 )
@@ -680,19 +679,14 @@ func cmpTyped(got interface{}, d destExp, version int, where string) *problem {
 }
 
 type framePack struct {
-	e          *frame.Entry
-	enc        *frame.Encoded
-	plain      []byte
-	compressed []byte
-	companion  []byte
+	e         *frame.Entry
+	enc       *frame.Encoded
+	wire      map[string][]byte // compression ("", "snappy", "lz4") -> frame bytes
+	companion []byte
 }
 
-func (fp *framePack) open(compressed bool) (*gocql.Iter, *gocql.VerifView, *problem) {
-	raw := fp.plain
-	var comp gocql.Compressor
-	if compressed {
-		raw, comp = fp.compressed, gocql.SnappyCompressor{}
-	}
+func (fp *framePack) open(compression string) (*gocql.Iter, *gocql.VerifView, *problem) {
+	raw, comp := fp.wire[compression], compressorOf(compression)
 	ver := byte(fp.e.Resp.Version)
 	view, h := gocql.VerifParse(ver, comp, raw)
 	if h == nil {
@@ -763,7 +757,11 @@ func panicSite() string {
 // or by executing a query against the scripted node).
 type opener func() (*gocql.Iter, *problem)
 
-func iterChecks(e *frame.Entry, open opener) *problem {
+func iterChecks(e *frame.Entry, open opener) *problem { return iterChecksN(e, open, 5) }
+
+// iterChecksN runs the first maxPass passes (1: Iter.Scan with raw destinations and the
+// Iter's accessors, 2: Scanner, 3: RowData, 4: MapScan, 5: SliceMap); every pass opens a fresh iterator.
+func iterChecksN(e *frame.Entry, open opener, maxPass int) *problem {
 	rows := e.Resp.Msg.(frame.ResultRows)
 	ver := e.Resp.Version
 	cols := effectiveColumns(e)
@@ -849,6 +847,9 @@ func iterChecks(e *frame.Entry, open opener) *problem {
 	}); p != nil {
 		return p
 	}
+	if maxPass < 2 {
+		return nil
+	}
 
 	// pass 2: Scanner
 	if p := guard(func() *problem {
@@ -899,7 +900,7 @@ func iterChecks(e *frame.Entry, open opener) *problem {
 		return p
 	}
 
-	if !e.Typed {
+	if !e.Typed || maxPass < 3 {
 		return nil
 	}
 	names := make([]string, 0, width)
@@ -1040,6 +1041,8 @@ type local struct {
 	rowsIter  int64
 	typedIter int64
 	samples   []string
+	// compressed rows frames whose compressed body is shorter than 4 bytes per cell
+	smallerThanCells int64
 }
 
 type item struct {
@@ -1054,11 +1057,24 @@ func evalEntry(r *report.Run, l *local, e *frame.Entry) {
 		r.Infra("catalogue entry does not encode: %s v%d: %v", e.Class, ver, err)
 		return
 	}
-	fp := &framePack{e: e, enc: enc, plain: enc.Bytes()}
+	fp := &framePack{e: e, enc: enc, wire: map[string][]byte{"": enc.Bytes()}}
 	ch := enc.Header
 	ch.Flags |= frame.FlagCompression
-	cbody := snappy.Encode(nil, enc.Body)
-	fp.compressed = frame.Assemble(ch, cbody)
+	// every entry: uncompressed and snappy; the bulk rows entries (bulk.go) also lz4
+	compressions := []string{"", "snappy"}
+	if strings.HasPrefix(e.Class, "rows/bulk/") {
+		compressions = append(compressions, "lz4")
+	}
+	cbodies := map[string][]byte{"": enc.Body}
+	for _, c := range compressions[1:] {
+		cb, err := compressBody(c, enc.Body)
+		if err != nil {
+			r.Infra("%s v%d: %s: %v", e.Class, ver, c, err)
+			return
+		}
+		cbodies[c] = cb
+		fp.wire[c] = frame.Assemble(ch, cb)
+	}
 	if e.Companion != nil {
 		cenc, err := frame.Encode(e.Companion)
 		if err != nil {
@@ -1072,19 +1088,20 @@ func evalEntry(r *report.Run, l *local, e *frame.Entry) {
 		kind = strings.Join(strings.Split(e.Class, "/")[:2], "/")
 	}
 	_, isRows := e.Resp.Msg.(frame.ResultRows)
-	for _, compressed := range []bool{false, true} {
+	for _, compression := range compressions {
+		compressed := compression != ""
 		l.evals++
 		l.perVer[ver]++
 		l.perKind[kind]++
-		var comp gocql.Compressor
-		raw, wire := fp.plain, len(enc.Body)
-		if compressed {
-			comp, raw, wire = gocql.SnappyCompressor{}, fp.compressed, len(cbody)
+		if compressed && isRows && len(cbodies[compression]) < 4*int(e.Resp.Msg.(frame.ResultRows).Meta.ColumnCount)*len(e.Resp.Msg.(frame.ResultRows).Rows) {
+			l.smallerThanCells++
 		}
+		comp := compressorOf(compression)
+		raw, wire := fp.wire[compression], len(cbodies[compression])
 		view, _ := gocql.VerifParse(byte(ver), comp, raw)
 		p := compareView(view, e, enc, compressed, wire)
 		if p == nil && isRows {
-			c := compressed
+			c := compression
 			p = iterChecks(e, func() (*gocql.Iter, *problem) { it, _, p := fp.open(c); return it, p })
 			l.rowsIter++
 			if e.Typed {
@@ -1113,8 +1130,15 @@ func evalEntry(r *report.Run, l *local, e *frame.Entry) {
 				key = "types:custom-type-with-bare-collection-class-name"
 			}
 			desc, _ := json.Marshal(e.Resp)
-			r.Violation(key, fmt.Sprintf("v%d %s snappy=%v: %s | frame %s", ver, e.Class, compressed, p.detail, hexTrunc(raw)),
-				map[string]interface{}{"version": ver, "class": e.Class, "snappy": compressed, "frame_hex": hex.EncodeToString(raw), "response": json.RawMessage(desc)})
+			if len(desc) > 4000 {
+				desc, _ = json.Marshal(string(desc[:4000]) + "...")
+			}
+			fh := hex.EncodeToString(raw)
+			if len(fh) > 8000 {
+				fh = fh[:8000] + "..."
+			}
+			r.Violation(key, fmt.Sprintf("v%d %s compression=%q: %s | frame %s", ver, e.Class, compression, p.detail, hexTrunc(raw)),
+				map[string]interface{}{"version": ver, "class": e.Class, "compression": compression, "frame_hex": fh, "response": json.RawMessage(desc)})
 		}
 	}
 }
@@ -1192,10 +1216,17 @@ func main() {
 		go func(v int) {
 			defer gen.Done()
 			n := 0
+			if devOnlyLive {
+				return
+			}
 			frame.Catalogue(v, frame.CatalogueOptions{Thorough: thorough}, func(e *frame.Entry) {
 				items <- item{e, n}
 				n++
 			})
+			for _, e := range bulkEntries(v, thorough, true) {
+				items <- item{e, n}
+				n++
+			}
 		}(v)
 	}
 	go func() { gen.Wait(); close(items) }()
@@ -1233,7 +1264,7 @@ func main() {
 	perVer := map[string]int64{}
 	perKind := map[string]int64{}
 	classes := map[string]bool{}
-	var rowsIter, typedIter int64
+	var rowsIter, typedIter, smaller int64
 	var samples []string
 	for _, l := range locals {
 		r.AddCounts(l.evals, l.keys)
@@ -1248,6 +1279,7 @@ func main() {
 		}
 		rowsIter += l.rowsIter
 		typedIter += l.typedIter
+		smaller += l.smallerThanCells
 		samples = append(samples, l.samples...)
 	}
 	sort.Strings(samples)
@@ -1259,11 +1291,15 @@ func main() {
 	r.Extra("shape_classes", len(classes))
 	r.Extra("rows_frames_iterated_scan_and_scanner", rowsIter)
 	r.Extra("rows_frames_iterated_rowdata_mapscan_slicemap", typedIter)
+	r.Extra("compressed_rows_frames_shorter_than_4_bytes_per_cell", smaller)
 	r.Extra("catalogue_phase_seconds", time.Since(start).Seconds())
 
 	runLive(r)
 
-	os.Exit(r.Finish(true))
+	os.Exit(r.Finish(!devOnlyLive))
 }
+
+// development aid: VERIF_C04_ONLY_LIVE=1 skips the catalogue phase (the run then reports exhaustive=false)
+var devOnlyLive = os.Getenv("VERIF_C04_ONLY_LIVE") != ""
 
 var _ = reflect.DeepEqual
